@@ -1024,10 +1024,13 @@ func splitInlineBox(context *layoutContext, box_ Box, positionX, maxX, bottomSpa
 				inFlowChildren = append(inFlowChildren, child.box)
 			}
 		}
-		posX := inFlowChildren[0].Box().PositionX
-		for _, child := range reversedBoxes(inFlowChildren) {
-			child.Translate(child, (posX - child.Box().PositionX), 0, true)
-			posX += child.Box().MarginWidth()
+		// (the children may all be floats or absolutely positioned: nothing to reorder)
+		if len(inFlowChildren) != 0 {
+			posX := inFlowChildren[0].Box().PositionX
+			for _, child := range reversedBoxes(inFlowChildren) {
+				child.Translate(child, (posX - child.Box().PositionX), 0, true)
+				posX += child.Box().MarginWidth()
+			}
 		}
 	}
 
